@@ -387,6 +387,15 @@ func GenTag(t *rapid.T, pool []string, allowSpaces bool) string {
 
 var headerNames = []string{"X-Test", "Accept", "User-Agent", "Cookie", "X-Req-Id", "Accept-Language", "x-lower", "Authorization", "Referer", "X-B3"}
 
+// genHeaderValueFor may also draw the empty value (`[X-Test:]`, "X-Test": ""): the header is then defined by the
+// ammo, with nothing in it. Not for User-Agent: Go's client omits an empty User-Agent altogether.
+func genHeaderValueFor(t *rapid.T, name string) string {
+	if canon(name) != "User-Agent" && rapid.IntRange(0, 6).Draw(t, "hvEmpty") == 0 {
+		return ""
+	}
+	return genHeaderValue(t)
+}
+
 func genHeaderValue(t *rapid.T) string {
 	switch rapid.IntRange(0, 4).Draw(t, "hvKind") {
 	case 0:
@@ -450,7 +459,7 @@ func Gen(t *rapid.T, format string, o GenOpts) File {
 		if dirs {
 			for rapid.IntRange(0, 3).Draw(t, "dirHere") == 0 {
 				k := rapid.SampledFrom(append([]string{"Host"}, headerNames...)).Draw(t, "dirKey")
-				v := genHeaderValue(t)
+				v := genHeaderValueFor(t, k)
 				if k == "Host" {
 					v = genHost(t)
 				}
@@ -540,7 +549,7 @@ func genHeaders(t *rapid.T) []KV {
 			continue
 		}
 		seen[canon(k)] = true
-		out = append(out, KV{K: k, V: genHeaderValue(t)})
+		out = append(out, KV{K: k, V: genHeaderValueFor(t, k)})
 	}
 	return out
 }
